@@ -71,6 +71,15 @@ def getStoich (c : Content) (vars : Option (List (Name × Rat))) (t : Rat) :
   let dep ← getArgsEnv c cache (resolveVars cache vars) t
   overlayDynAll dep cache.dynStoich cache.stoich
 
+/-- `get_stoichiometries_of_variable(variable, variables, time)`: that variable's row of the table
+    (KeyError for a variable no stoichiometry mentions) -/
+def getStoichOfVar (c : Content) (x : Name) (vars : Option (List (Name × Rat))) (t : Rat) :
+    Except Err (List (Name × Rat)) := do
+  let tbl ← getStoich c vars t
+  match tbl.lookup x with
+  | some row => pure row
+  | none => .error (.keyError x)
+
 /-! ### time-course forms: the pointwise forms mapped over the rows of a table -/
 
 /-- `get_args_time_course(variables)`: one `_get_args` per row (index = time), `time` column dropped -/
